@@ -17,9 +17,10 @@ the specification's own row functions (not in terms of ``sem(operation)``, which
     r.transferred_to(E)              rows == rows(r), engine E
 
 for every preferred-engine option combination, plus the C20 clauses (ill-formed requests raise the documented error) restated at
-the factory.  ``__getitem__`` has had its contract since the first session (contracts/c20.py).  ``join`` is the one factory left
-without a contract of its own: its body is ``Join(p or literal True).partial(rhs).apply(self, ...)``, whose pieces (Join.partial,
-PartialJoin._begin_apply, BinaryOperation.apply, Join._finish_apply) are verified; the default-predicate expression is not.
+the factory.  ``__getitem__`` has had its contract since the first session (contracts/c20.py).  ``join`` is in
+contracts/factory_join.py: for a caller-supplied predicate its rows are the natural join on the shared key columns filtered by the
+predicate; for the default predicate only the structural clauses are stated (the specification has no congruence law that would
+tie "some always-true predicate" to one object).
 """
 from __future__ import annotations
 
@@ -35,6 +36,7 @@ OPTS_ERR = ("EngineError", "RelationalAlgebraError", "NotImplementedError")
 
 def register(reg):
     reg.load("c20")
+    reg.load("factory_join")  # Relation.join (predicate-given case)
     P = ("C03", "C05", "C20")
     rows = V.rows
 
